@@ -7,8 +7,8 @@ let zi = z_of_int and iz = int_of_z
 let chain comp = match comp with
   | 1 -> [WAligned (zi 32)] | 2 | 3 | 4 | 6 -> [WPass] | 5 -> [WAny] | 7 -> [WSegregator (zi 64)]
   | 8 -> [WAligned (zi 16); WPass] | 9 -> [WPass; WAligned (zi 64)] | 11 -> [WPass; WAligned (zi 32)]
-  | 12 -> [WAligned (zi 16); WPass; WSegregator (zi 64)] | 13 -> [WPass; WAligned (zi 128); WPass] | 15 -> [WAligned (zi 32); WPass] | _ -> [WPass]
-let tracked comp leaf = match comp with 2 | 8 | 9 | 12 | 13 | 14 | 15 -> true | 10 -> leaf = 1 | _ -> false
+  | 12 -> [WAligned (zi 16); WPass; WSegregator (zi 64)] | 13 -> [WPass; WAligned (zi 128); WPass] | 15 -> [WAligned (zi 32); WPass] | 16 -> [WAligned (zi 64)] | 17 -> [WAligned (zi 128)] | _ -> [WPass]
+let tracked comp leaf = match comp with 2 | 8 | 9 | 12 | 13 | 14 | 15 | 18 -> true | 10 -> leaf = 1 | _ -> false
 
 (* what the tracker sees: the request after the wrappers outside of it *)
 let tracker_prefix comp = match comp with 8 -> [WAligned (zi 16)] | 15 -> [WAligned (zi 32)] | 12 -> [WAligned (zi 16)] | 13 -> [WPass; WAligned (zi 128)] | _ -> []
